@@ -14,6 +14,7 @@ import (
 	"encoding/json"
 	"fmt"
 	"io"
+	mrand "math/rand"
 	"net"
 	"os"
 	"runtime"
@@ -77,9 +78,37 @@ func Reset() {
 	load()
 }
 
+// random mode (VERIFND_RANDOM=<seed>): values are drawn at random instead of
+// read from a vector; used to confirm natively that a marker the solver proved
+// unreachable is indeed never reached.
+var rnd *mrand.Rand
+
+func SetRandom(seed int64) {
+	mu.Lock()
+	rnd = mrand.New(mrand.NewSource(seed))
+	Failed, Reached, Diverged = nil, nil, false
+	mu.Unlock()
+}
+
 func next(label, kind string) ndValue {
 	mu.Lock()
 	defer mu.Unlock()
+	if rnd != nil {
+		v := ndValue{Label: label, Kind: kind}
+		switch kind {
+		case "bool":
+			v.Int = int64(rnd.Intn(2))
+		case "u8":
+			v.Int = int64(rnd.Intn(256))
+		case "u16":
+			v.Int = int64(rnd.Intn(1 << 16))
+		case "u32":
+			v.Int = int64(rnd.Uint32())
+		default:
+			v.Int = int64(rnd.Uint64())
+		}
+		return v
+	}
 	load()
 	if pos >= len(vec) {
 		// beyond the recorded vector: the replay left the recorded path
@@ -105,6 +134,13 @@ func Int(label string) int    { return int(next(label, "i64").Int) }
 
 // Bytes returns n arbitrary bytes.
 func Bytes(label string, n int) []byte {
+	if rnd != nil {
+		mu.Lock()
+		defer mu.Unlock()
+		out := make([]byte, n)
+		rnd.Read(out)
+		return out
+	}
 	v := next(label, "bytes")
 	b, _ := hex.DecodeString(v.Hex)
 	out := make([]byte, n)
@@ -114,6 +150,11 @@ func Bytes(label string, n int) []byte {
 
 // Range returns an arbitrary value in [lo,hi] (symbolic; assumed in range).
 func Range(label string, lo, hi int) int {
+	if rnd != nil {
+		mu.Lock()
+		defer mu.Unlock()
+		return lo + int(rnd.Int63n(int64(hi-lo)+1))
+	}
 	v := int(next(label, "range").Int)
 	if v < lo || v > hi {
 		Diverged = true
@@ -122,13 +163,23 @@ func Range(label string, lo, hi int) int {
 }
 
 // Choose forks the exploration into n cases (an enumerated dimension).
-func Choose(label string, n int) int { return int(next(label, "choose").Int) }
+func Choose(label string, n int) int {
+	if rnd != nil {
+		mu.Lock()
+		defer mu.Unlock()
+		return rnd.Intn(n)
+	}
+	return int(next(label, "choose").Int)
+}
 
 type assumeFailed struct{}
 
 // Assume restricts the exploration to executions where c holds.
 func Assume(c bool) {
 	if !c {
+		if rnd != nil {
+			panic(assumeFailed{})
+		}
 		fmt.Println("VERIFND-ASSUME-FALSE")
 		Diverged = true
 		panic(assumeFailed{})
